@@ -72,6 +72,20 @@ PROP = [  # (subject fragment, property ids, key that used to be reported)
  ("blame line whose code looks like the end of blame metadata was split at the wrong place", 'C17', "c17:code (code holding 'timestamp number)'; found from a sub-agent's note; such code is generated now)"),
  ("the same for a one-character author name (blame metadata ends at the first timestamp)", 'C17', "c17:code (author of one character; found by the C17 check after the previous fix)"),
  ("blame lines of ignored revisions ('?' / '*' before the hash) were not recognised", 'C17', "(blame.markIgnoredLines / markUnblamableLines; found from a sub-agent's note)"),
+ ("an enormous --wrap-max-lines made delta panic (arithmetic overflow)", 'C03', "panic|delta::wrapping::adapt_wrap_max_lines_argument|attempt to add with overflow; panic|delta::wrapping::WrapConfig::config_max_line_length|attempt to multiply with overflow"),
+ ("an invalid --blame-timestamp-output-format made delta panic on the first blame line", 'C03', "panic|delta::handlers::blame::format_blame_metadata|a Display implementation returned an error unexpectedly"),
+ ("a pager command that cannot be parsed made delta panic", 'C03,C18', "panic at src/main.rs (OutputType::from_mode(..).unwrap()) with DELTA_PAGER=\"less '\" (found from a sub-agent's note, not generated by a check)"),
+ ("a merge conflict region that is never closed lost all its lines", 'C01,C03,C10', "c01:combined:conflict-structure / line-missing (unterminated region; found from three sub-agents' notes; such regions are generated now)"),
+ ("--color-only put the file path or the navigate label in front of hunk header lines", 'C02', "c02:text:hunkheader (diff-so-fancy named as a feature; found from a sub-agent's note)"),
+ ("the function-context line of 'git grep -p' without -n was shown with the line number 0", 'C16', "c16:header-number:color (found from a sub-agent's note)"),
+ ("after a '\\ No newline at end of file' note the rest of a combined-diff hunk was read as a two-way diff", 'C01', "c01:combined:kind / :text (found from two sub-agents' notes; the note is generated inside combined hunks now)"),
+ ("a quoted path that also contains a space was shown with its quotes and a/ b/ prefixes", 'C14', "c14:header-text:* (real git output for 'sp acé.txt'; found from a sub-agent's note)"),
+ ("a binary file whose mode changed as well was reported without the binary note", 'C14', "c14:header-text:binary_mode_changed (found from a sub-agent's note; section kind added)"),
+ ("delta <command> hung when the command wrote more to stderr than a pipe holds", 'C18,C03', "c18:stderr-flood:timeout (found from a sub-agent's note; sub-check added)"),
+ ("the default language was looked up in the file system", 'C15', "c15:default-language:depends-on-directory (found from a sub-agent's note; sub-check added)"),
+ ("a line starting with 'old mode ' outside a diff made delta swallow the rest of the input", 'C04,C03', "c04:line-altered / extra-output (found from a sub-agent's note; such text lines are generated now)"),
+ ("an enormous --width made delta abort (memory allocation failed)", 'C03', "signal|6 (--width 100000000000000; found from a sub-agent's note; generated now)"),
+ ("a huge --wrap-max-lines made delta allocate without bound when nothing fits in a panel", 'C03', "signal|6 (memory allocation of 1.6 GB failed in wrapping::wrap_line; found by C03 at seed 3 once the huge values were generated)"),
  ("lines differing by a zero-width character were paired at --max-line-distance 0", 'C06', "c06:distance-0-pairing / :sbs ('<U+0308>key' paired with ' key   ' at distance 0; found by the thorough tier)"),
 ]
 log = subprocess.run(['git', '-C', '/repo', 'log', '--format=%H%x09%s', '--reverse'], stdout=subprocess.PIPE).stdout.decode().splitlines()
